@@ -5,8 +5,12 @@
    DECL  ::= (decl (TY ...) TY|none 0|1)        ; reflected input types, output, outputsError
                                                 ; (output and flag are ignored for `dynamic`)
    ARG   ::= nil | (a TY K)                     ; the value made from token K at dynamic type TY
-   BEH   ::= (beh K 0|1)                        ; the handler returns the value made from K at its
-                                                ; first result type, and a nil / non-nil error
+   BEH   ::= (beh K 0|1|2|3)                    ; the handler returns the value made from K at its
+                                                ; first result type, and: 0 a nil error, 1 a plain
+                                                ; error carrying K, 2 / 3 an error value that itself is
+                                                ; a *FunctionCallError (IsFunctionReportedError false /
+                                                ; true) around the plain error carrying K
+               reported errors of kind 2 / 3 print as (r err reported fce0|fce1 K (got ...))
    case  ::= (accept static|dynamic SIG DECL)                    -> (r accept) | (r reject)
            | (call static|dynamic SIG DECL (args ARG ...) BEH)   -> (r reject) | (r ok none)
                | (r ok VALUE (got VALUE ...)) | (r err reported K (got VALUE ...))
@@ -88,9 +92,29 @@ Definition render_arg (a : arg sexp) : sexp :=
 
 (* the handler of a case: returns the value made from k at its first result type together with
    what it received, and (when e) a non-nil error carrying k and what it received *)
-Definition case_handler (s : hsig) (k : Z) (e : bool) (args : list (arg sexp)) : hres sexp sexp :=
+(* the kinds of error value a handler returns (BEH's second field): the model's `call` treats the
+   handler's error as an abstract value of type E, so WHAT the value is — a plain error, or a value
+   that itself is a *FunctionCallError carrying IsFunctionReportedError = false / true — cannot
+   influence how the result is attributed (C18_call_faithful, C18_handler_error_is_reported). *)
+Inductive herr_kind := HNil | HPlain | HFce (reported : bool).
+
+Definition herr_kind_of (x : sexp) : option herr_kind :=
+  match z_of_atom x with
+  | Some 0%Z => Some HNil
+  | Some 1%Z => Some HPlain
+  | Some 2%Z => Some (HFce false)
+  | Some 3%Z => Some (HFce true)
+  | _ => None
+  end.
+
+Definition case_handler (s : hsig) (k : Z) (e : herr_kind) (args : list (arg sexp)) : hres sexp sexp :=
   let got := Ls (At "got" :: map render_arg args) in
-  mkHres (Ls [mkval (hd GAny (s_outs s)) k; got]) (if e then Some (Ls [sz k; got]) else None).
+  mkHres (Ls [mkval (hd GAny (s_outs s)) k; got])
+         (match e with
+          | HNil => None
+          | HPlain => Some (Ls [sz k; got])
+          | HFce r => Some (Ls [At (if r then "fce1" else "fce0"); sz k; got])
+          end).
 
 Definition items (x : sexp) : list sexp := match x with Ls l => l | y => [y] end.
 
@@ -124,7 +148,7 @@ Definition run_function_case (x : sexp) : sexp :=
       else bad "function case"
   | Ls [h; mode; sg; dc; Ls (ah :: al); Ls [bh; bk; be]] =>
       if atom_eq h "call" && atom_eq ah "args" && atom_eq bh "beh" then
-        match sig_of sg, decl_of dc, opt_mapM arg_of al, z_of_atom bk, b_of_atom be with
+        match sig_of sg, decl_of dc, opt_mapM arg_of al, z_of_atom bk, herr_kind_of be with
         | Some s, Some d, Some args, Some k, Some e =>
             match construct mode s d with
             | Some (Some f) => s_call_res (call (case_handler s k e) f args)
